@@ -115,10 +115,26 @@ func runC07(p *an.Prog, r *an.Run, tier string) {
 				ep = e
 			}
 		}
+		// the settlement may sit in an unexported helper that exactly one signed endpoint calls (the part of Withdraw that
+		// runs under the lock, say): it is then judged as part of that endpoint
+		outer := fn
+		var site ssa.CallInstruction
+		if ep == nil && !p.IsAddressTaken(fn) {
+			if sites := p.StaticSites(fn); len(sites) == 1 {
+				for _, e := range a.endpoints {
+					if e.Fn == sites[0].Parent() {
+						ep, outer, site = e, e.Fn, sites[0]
+						name = an.FuncName(outer)
+						r.Analysed(name)
+					}
+				}
+			}
+		}
 		if ep == nil {
 			r.Fail("gate", name, fn.Pos(), "%s invokes the settlement handler but is not a signed endpoint (sig, wallet, nonce)", name)
 			continue
 		}
+		fromID := func(v ssa.Value) bool { return p.DerivesIn(outer, 2, v).HasParam(ep.ID) }
 		settles := settleCalls(fn)
 		if len(settles) != 1 {
 			r.Fail("gate", name, fn.Pos(), "expected exactly one settlement call, found %d (paying twice per request)", len(settles))
@@ -133,12 +149,16 @@ func runC07(p *an.Prog, r *an.Run, tier string) {
 		}
 		// ---- gate
 		var bad []string
-		gates := a.gateCalls(fn)
+		gates := a.gateCalls(outer)
 		var cut []an.Edge
 		for _, g := range gates {
 			cut = append(cut, an.ErrEdges(g).Succ...)
 		}
-		if len(gates) == 0 || an.ReachAvoiding(fn, an.EdgeSet(cut))[settle.Block()] {
+		gated := settle.Block()
+		if site != nil {
+			gated = site.Block()
+		}
+		if len(gates) == 0 || an.ReachAvoiding(outer, an.EdgeSet(cut))[gated] {
 			bad = append(bad, "settlement is reachable without a successful signature verification")
 		}
 		gets := findCalls(fn, false, func(f *types.Func) bool { return isStoreMethodNamed(f, "GetAccountBalance") })
@@ -211,8 +231,7 @@ func runC07(p *an.Prog, r *an.Run, tier string) {
 			}
 		}
 		if get != nil {
-			da := p.Derives(0, methodArgs(get)[0])
-			if !da.HasParam(ep.ID) {
+			if !fromID(methodArgs(get)[0]) {
 				bad = append(bad, "the balance read is not that of the verified wallet")
 			}
 		} else if len(gets) == 0 {
@@ -222,7 +241,7 @@ func runC07(p *an.Prog, r *an.Run, tier string) {
 
 		// ---- amount
 		bad = nil
-		if !p.Derives(0, sargs[0]).HasParam(ep.ID) {
+		if !fromID(sargs[0]) {
 			bad = append(bad, "the settled account does not derive from the verified wallet")
 		}
 		da := p.Derives(0, sargs[1])
@@ -326,7 +345,7 @@ func runC07(p *an.Prog, r *an.Run, tier string) {
 						}
 					}
 				}
-				if okc && !p.Derives(0, ma[0]).HasParam(ep.ID) {
+				if okc && !fromID(ma[0]) {
 					okc, why = false, "account is not the verified wallet"
 				}
 				if okc && an.CallObj(c).Name() != "AddAccountBalance" {
@@ -381,7 +400,11 @@ func runC07(p *an.Prog, r *an.Run, tier string) {
 
 		// ---- exclusive
 		bad = nil
-		li := an.Locksets(fn, nil)
+		var inherited an.Held
+		if site != nil {
+			inherited = p.EntryLocks()[fn]
+		}
+		li := an.Locksets(fn, inherited)
 		var common an.Held
 		points := []ssa.Instruction{settle.(ssa.Instruction)}
 		if get != nil {
